@@ -671,4 +671,42 @@ package serf
 //@   ensures empty_ignored [C04,C09]: len(buf) == 0 ==> queued == 0 && handled == 0
 //@ end
 
+// ---------------------------------------------------------------- member event coalescing (C17)
+
+//@ pure func hasLatest(c *memberEventCoalescer, k string) bool { _, ok := c.latestEvents[k]; return ok }
+//@ pure func hasLast(c *memberEventCoalescer, k string) bool { _, ok := c.lastEvents[k]; return ok }
+// every pending entry points at a copy of the member it is filed under
+//@ pure func wfCoalescer(c *memberEventCoalescer) bool {
+//@   return c != nil && c.lastEvents != nil && c.latestEvents != nil &&
+//@     forall(func(k string) bool { return hasLatest(c, k) ==> c.latestEvents[k].Member != nil && allocated(c.latestEvents[k].Member) && c.latestEvents[k].Member.Name == k })
+//@ }
+//@ pure func isMemberEvent(e Event) bool { _, ok := e.(MemberEvent); return ok }
+//@ pure func asMemberEvent(e Event) MemberEvent { m, _ := e.(MemberEvent); return m }
+
+//@ func (c *memberEventCoalescer) Coalesce(raw Event)
+//@   requires wf: wfCoalescer(c)
+//@   requires member_event: isMemberEvent(raw)
+//@   oldlet e := asMemberEvent(raw)
+//@   ensures wf [C17]: wfCoalescer(c)
+//@   # the last occurrence of a name in the event is what is pending for it afterwards
+//@   ensures latest_recorded [C17]: forall(func(i int) bool {
+//@       return 0 <= i && i < len(e.Members) && forall(func(j int) bool { return i < j && j < len(e.Members) ==> e.Members[j].Name != e.Members[i].Name }) ==>
+//@         hasLatest(c, e.Members[i].Name) && c.latestEvents[e.Members[i].Name].Type == e.Type &&
+//@         same(*c.latestEvents[e.Members[i].Name].Member, e.Members[i]) })
+//@   ensures others_kept [C17]: forall(func(k string) bool {
+//@       return !exists(func(i int) bool { return 0 <= i && i < len(e.Members) && e.Members[i].Name == k }) ==>
+//@         hasLatest(c, k) == old(hasLatest(c, k)) && c.latestEvents[k] == old(c.latestEvents[k]) })
+//@   ensures reported_kinds_kept [C17]: forall(func(k string) bool { return hasLast(c, k) == old(hasLast(c, k)) && c.lastEvents[k] == old(c.lastEvents[k]) })
+//@   loop 1 vars ri=rangeindex int
+//@   loop 1 invariant bounds [C17]: -1 <= ri && ri < len(e.Members)
+//@   loop 1 invariant wf [C17]: wfCoalescer(c)
+//@   loop 1 invariant recorded [C17]: forall(func(i int) bool {
+//@       return 0 <= i && i <= ri && forall(func(j int) bool { return i < j && j <= ri ==> e.Members[j].Name != e.Members[i].Name }) ==>
+//@         hasLatest(c, e.Members[i].Name) && c.latestEvents[e.Members[i].Name].Type == e.Type &&
+//@         same(*c.latestEvents[e.Members[i].Name].Member, e.Members[i]) })
+//@   loop 1 invariant others [C17]: forall(func(k string) bool {
+//@       return !exists(func(i int) bool { return 0 <= i && i <= ri && e.Members[i].Name == k }) ==>
+//@         hasLatest(c, k) == old(hasLatest(c, k)) && c.latestEvents[k] == old(c.latestEvents[k]) })
+//@ end
+
 // END-OF-CONTRACTS
